@@ -757,6 +757,12 @@ bool TypeAuditor::ViRecursion(Cursor iter) {
     return false;
   }
 
+  if (const auto merged = env.Merge(
+        std::get<Typification>(iterationValue.value()),
+        std::get<Typification>(initType.value())
+      ); merged.has_value()) {
+    iterationValue = merged.value(); // Note: result may be the initial value, so its type takes part in deduction
+  }
   { 
     const auto guard = noWarnings.CreateGuard();
     for (auto retries = typeDeductionDepth; retries > 0; --retries) {
@@ -767,6 +773,12 @@ bool TypeAuditor::ViRecursion(Cursor iter) {
       auto newIteration = ChildType(iter, iterationIndex);
       if (!newIteration.has_value()) {
         return false;
+      }
+      if (const auto merged = env.Merge(
+            std::get<Typification>(newIteration.value()),
+            std::get<Typification>(iterationValue.value())
+          ); merged.has_value()) {
+        newIteration = merged.value();
       }
       if (std::get<Typification>(newIteration.value()) == std::get<Typification>(iterationValue.value())) {
         break;
